@@ -5,7 +5,7 @@ usage: tools/mutest.py <patch.diff> <prop> [<prop>...]"""
 import subprocess, sys, os, json
 patch = os.path.abspath(sys.argv[1]); props = sys.argv[2:]
 env = dict(os.environ, GOFLAGS="-mod=mod", GOPROXY="off", GOSUMDB="off", GOTOOLCHAIN="local")
-def sh(cmd, **kw): return subprocess.run(cmd, shell=True, capture_output=True, text=True, env=env, **kw)
+def sh(cmd, **kw): return subprocess.run(cmd, shell=True, capture_output=True, text=True, errors="replace", env=env, **kw)
 assert sh("git -C /repo status --porcelain").stdout.strip() == "", "/repo not clean"
 r = sh("git -C /repo apply " + patch)
 if r.returncode: print("patch does not apply", r.stderr); sys.exit(2)
